@@ -7,7 +7,15 @@ import (
 	"sort"
 	"strings"
 
+	"cosmossdk.io/collections"
+
 	sdk "github.com/cosmos/cosmos-sdk/types"
+	govv1 "github.com/cosmos/cosmos-sdk/x/gov/types/v1"
+	stakingtypes "github.com/cosmos/cosmos-sdk/x/staking/types"
+
+	disputetypes "github.com/tellor-io/layer/x/dispute/types"
+	oracletypes "github.com/tellor-io/layer/x/oracle/types"
+	reportertypes "github.com/tellor-io/layer/x/reporter/types"
 
 	"github.com/tellor-io/layer/utils"
 
@@ -122,7 +130,11 @@ func RunHistory(h History, mon Monitor) (*RunStats, *Trace, *pbt.Violation, erro
 				sent = append(sent, t)
 			}
 		}
-		gap := c.clampGap(b.Gap.Duration(), rs)
+		gd := b.Gap.Duration()
+		if b.Gap.Kind == GapToDeadline {
+			gd = c.deadlineGap(b.Gap.Delta)
+		}
+		gap := c.clampGap(gd, rs)
 		br := c.NextBlock(BlockInput{Gap: gap, Txs: raw, Votes: b.Votes})
 		rs.Blocks++
 		outs := make([]TxOutcome, 0, len(txs))
@@ -291,4 +303,67 @@ func reason(o TxOutcome) string {
 		l = l[:70]
 	}
 	return l
+}
+
+// deadlineGap returns the gap that places the next block at the earliest pending deadline + deltaMs.
+func (c *Chain) deadlineGap(deltaMs int64) time.Duration {
+	ctx := c.Ctx()
+	var best time.Time
+	consider := func(t time.Time) {
+		if t.After(c.Time.Add(2*time.Millisecond)) && (best.IsZero() || t.Before(best)) {
+			best = t
+		}
+	}
+	_ = c.App.DisputeKeeper.Disputes.Walk(ctx, nil, func(id uint64, d disputetypes.Dispute) (bool, error) {
+		if d.Open || d.PendingExecution {
+			consider(d.DisputeEndTime)
+			if v, err := c.App.DisputeKeeper.Votes.Get(ctx, id); err == nil {
+				consider(v.VoteEnd)
+			}
+		}
+		return false, nil
+	})
+	if tr, err := c.App.ReporterKeeper.Tracker.Get(ctx); err == nil && tr.Expiration != nil {
+		consider(*tr.Expiration)
+	}
+	_ = c.App.ReporterKeeper.Reporters.Walk(ctx, nil, func(_ []byte, r reportertypes.OracleReporter) (bool, error) {
+		if r.Jailed {
+			consider(r.JailedUntil)
+		}
+		return false, nil
+	})
+	_ = c.App.StakingKeeper.IterateUnbondingDelegations(ctx, func(_ int64, ubd stakingtypes.UnbondingDelegation) bool {
+		for _, e := range ubd.Entries {
+			consider(e.CompletionTime)
+		}
+		return false
+	})
+	_ = c.App.GovKeeper.Proposals.Walk(ctx, nil, func(_ uint64, p govv1.Proposal) (bool, error) {
+		if p.Status == govv1.StatusVotingPeriod && p.VotingEndTime != nil {
+			consider(*p.VotingEndTime)
+		}
+		return false, nil
+	})
+	// 12 h after the newest aggregate (bridge claims), two weeks after the last checkpoint (staleness)
+	var newest uint64
+	_ = c.App.OracleKeeper.Aggregates.Walk(ctx, nil, func(k collections.Pair[[]byte, uint64], _ oracletypes.Aggregate) (bool, error) {
+		if k.K2() > newest {
+			newest = k.K2()
+		}
+		return false, nil
+	})
+	if newest > 0 {
+		consider(time.UnixMilli(int64(newest)).Add(12 * time.Hour))
+	}
+	if ts, err := c.App.BridgeKeeper.GetCurrentValidatorSetTimestamp(ctx); err == nil {
+		consider(time.UnixMilli(int64(ts)).Add(14 * 24 * time.Hour))
+	}
+	if best.IsZero() {
+		return time.Second
+	}
+	g := best.Sub(c.Time) + time.Duration(deltaMs)*time.Millisecond
+	if g < time.Millisecond {
+		g = time.Millisecond
+	}
+	return g
 }
